@@ -492,6 +492,18 @@ def r10_6(ctx: Ctx, rule="R10.6"):
         ctx.ob(rule, f, unk[0] if unk else "unknown-name check", oku,
                "every name in the caller's dictionary must be a species with both resolutions attached, otherwise KeyError",
                node=unk[0] if unk else f.node)
+        # no dictionary given: every complete species gets the default
+        nb = [n_ for n_ in f.node.body if isinstance(n_, ast.If) and norm(n_.test).replace(" ", "") == ("%s is None" % inp).replace(" ", "")]
+        okn = bool(nb) and isinstance(nb[0].body[-1], ast.Return) and not nb[0].orelse
+        if okn:
+            rv = nb[0].body[-1].value
+            if isinstance(rv, ast.DictComp):
+                okn = norm(rv.value) in defaults and "complete_correspondence" in norm(rv.generators[0].iter)
+            else:
+                okn = isinstance(rv, ast.Name)
+        ctx.ob(rule, f, nb[0] if nb else "no-dictionary branch", okn,
+               "exactly when no dictionary is given (`%s is None`) the defaults for all complete species are returned; a "
+               "given dictionary is always parsed" % inp, node=nb[0] if nb else f.node)
         # the re-keying loop
         loops = [n_ for n_ in walk_no_nested(f.node) if isinstance(n_, ast.For) and "complete_correspondence" in norm(n_.iter)
                  and any(isinstance(x, ast.Assign) and isinstance(x.targets[0], ast.Subscript) for x in ast.walk(n_))]
